@@ -704,6 +704,23 @@ def op_remove_view_things(g, dv, protected):
   return None
 
 
+def op_set_sort(g, dv, protected):
+  """Give a view section a sort spec over columns of its table (RemoveColumn must clean it up)."""
+  secs = []
+  for r, rec in dv.records("_grist_Views_section"):
+    t = dv.table_by_ref.get(rec["tableRef"])
+    if t is not None and not t.is_summary and t.user_cols():
+      secs.append((r, t))
+  if not secs:
+    return None
+  acts = []
+  for r, t in g.rng.sample(secs, min(len(secs), g.rng.choice([1, 2, 3]))):
+    cols = g.rng.sample(t.user_cols(), min(len(t.user_cols()), g.rng.randint(1, 2)))
+    spec = [c.ref * g.rng.choice([1, -1]) for c in cols]
+    acts.append(["UpdateRecord", "_grist_Views_section", r, {"sortColRefs": json.dumps(spec)}])
+  return acts
+
+
 def op_add_view(g, dv, protected):
   ts = data_tables(dv)
   if not ts:
@@ -816,6 +833,7 @@ OPS = {
   "add_summary_formula": op_add_summary_formula,
   "remove_view_things": op_remove_view_things,
   "add_view": op_add_view,
+  "set_sort": op_set_sort,
   "page_indent": op_page_indent,
   "add_reverse": op_add_reverse,
   "display_formula": op_display_formula,
@@ -830,7 +848,7 @@ DEFAULT_WEIGHTS = {
   "remove_column": 3, "rename_column": 3, "rename_table": 2, "remove_table": 1,
   "modify_type": 3, "modify_formula": 3, "toggle_formula": 2,
   "add_view_section": 1, "add_summary": 3, "update_summary": 2, "detach_summary": 1,
-  "add_summary_formula": 1, "remove_view_things": 1, "add_view": 1, "page_indent": 1,
+  "add_summary_formula": 1, "remove_view_things": 1, "add_view": 1, "page_indent": 1, "set_sort": 1,
   "add_reverse": 1, "display_formula": 1, "add_rule": 1, "duplicate_table": 1,
   "trigger_column": 1,
 }
